@@ -263,46 +263,64 @@ def expand_sums(p: Poly, limit: int = 60) -> Optional[Poly]:
     return None
 
 
-def clear_denominators(p: Poly, limit: int = 60) -> Optional[Poly]:
-    """Multiply p by every sum atom that occurs with a negative integer exponent until none is left (p == 0 as a rational
-    function iff the result is the zero polynomial; the sums are denominators the program itself divides by)."""
+def clear_denominators(p: Poly, limit: int = 80) -> Optional[Poly]:
+    """p times the sums the program divides by, until every sum atom S occurs only as S^f with 0 <= f < 1 (f = 1/2 for the square
+    roots): S^e is split into S^floor(e), multiplied out, and S^(e - floor(e)). p == 0 as a function of the atoms iff the result is
+    the zero polynomial in the atoms and these fractional powers."""
+    import math as _m
+
     for _ in range(limit):
         p = expand_sums(p)
         if p is None:
             return None
-        worst = None
+        target = None
         for mono in p:
             for at, e in mono:
-                if isinstance(at, tuple) and at and at[0] == "sum" and e < 0 and e.denominator == 1:
-                    if worst is None or e < worst[1]:
-                        worst = (at, e)
-        if worst is None:
+                if isinstance(at, tuple) and at and at[0] == "sum" and (e < 0 or e >= 1):
+                    target = at
+                    break
+            if target is not None:
+                break
+        if target is None:
             return p
-        at, e = worst
-        k = int(-e)
-        sum_poly: Poly = {m: c for m, c in at[1]}
+        emin = min([e for mono in p for at, e in mono if at == target] + ([Fraction(0)] if any(all(at != target for at, _ in mono) for mono in p) else []))
+        shift = int(_m.ceil(-emin)) if emin < 0 else 0
+        sum_poly: Poly = {m: c for m, c in target[1]}
         out: Poly = {}
         for mono, c in p.items():
-            have = Fraction(0)
+            e = Fraction(0)
             rest = []
             for a2, e2 in mono:
-                if a2 == at:
-                    have = e2
+                if a2 == target:
+                    e = e2
                 else:
                     rest.append((a2, e2))
-            if have.denominator != 1:
-                return None
-            need = k + int(have)
-            if need < 0:
-                return None
-            term: Poly = {tuple(rest): c}
-            for _i in range(need):
+            e = e + shift
+            n = int(_m.floor(e))
+            f = e - n
+            base = tuple(sorted(rest + ([(target, f)] if f != 0 else []), key=repr))
+            term: Poly = {base: c}
+            for _i in range(n):
                 term = p_mul(term, sum_poly)
             out = p_add(out, term)
         p = out
-        if len(p) > 40000:
+        if len(p) > 60000:
             return None
     return None
+
+
+def _unknown_inside(x, depth: int = 0) -> bool:
+    if not isinstance(x, tuple) or depth > 80:
+        return False
+    if x and x[0] in ("opq", "star-occurrence", "cmp"):
+        return True
+    return any(_unknown_inside(y, depth + 1) for y in x if isinstance(y, tuple))
+
+
+def has_unknown(p: Optional[Poly]) -> bool:
+    """The term mentions a value the explicit run could not express over the input atoms (a numbered local of a join, an element
+    at an unknown position, an undecided comparison used as a number): nothing can be concluded from a difference."""
+    return p is not None and any(_unknown_inside(m) for m in p)
 
 
 def is_zero(p: Optional[Poly]) -> Optional[bool]:
@@ -313,16 +331,119 @@ def is_zero(p: Optional[Poly]) -> Optional[bool]:
     q = clear_denominators(p)
     if q is None:
         return None
-    return not q
+    if not q:
+        return True
+    return None if has_unknown(q) else False
 
 
-def same(a: Optional[Poly], b: Optional[Poly]) -> Optional[bool]:
-    """a == b as rational functions of the atoms."""
+def _is_frozen_poly(x) -> bool:
+    return isinstance(x, tuple) and all(isinstance(t, tuple) and len(t) == 2 and isinstance(t[1], Fraction) and isinstance(t[0], tuple) for t in x)
+
+
+def _walk_atoms(at, out):
+    """max / min / abs / call atoms at any depth (inside sums, powers, arguments), innermost first."""
+    if not (isinstance(at, tuple) and at and isinstance(at[0], str)):
+        return
+    for x in at[1:]:
+        if _is_frozen_poly(x):
+            for mono, _ in x:
+                for a2, _e in mono:
+                    _walk_atoms(a2, out)
+    if at[0] in ("max", "min", "abs", "call") and at not in out:
+        out.append(at)
+
+
+def _atoms_of(p: Poly):
+    out: List[Any] = []
+    for mono in p:
+        for at, _ in mono:
+            _walk_atoms(at, out)
+    return out
+
+
+def _map_atom(at, old, new):
+    if at == old:
+        return new
+    if not (isinstance(at, tuple) and at and isinstance(at[0], str)):
+        return at
+    parts = []
+    changed = False
+    for x in at[1:]:
+        if _is_frozen_poly(x) and x:
+            y = freeze(_replace_atom({m: c for m, c in x}, old, new))
+            changed = changed or y != x
+            parts.append(y)
+        else:
+            parts.append(x)
+    if not changed:
+        return at
+    if at[0] in ("max", "min"):
+        parts = sorted(parts, key=repr)
+    return (at[0],) + tuple(parts)
+
+
+def _atom_args(at):
+    """(head, [argument polynomials]) of a max / min / abs / call atom; None when an argument is not a frozen polynomial."""
+    head = at[:2] if at[0] == "call" else at[:1]
+    args = []
+    for x in (at[2:] if at[0] == "call" else at[1:]):
+        if not isinstance(x, tuple) or (x and not (isinstance(x[0], tuple) and len(x[0]) == 2 and isinstance(x[0][1], Fraction))):
+            if x == ():
+                args.append({})
+                continue
+            return None
+        args.append({m: c for m, c in x})
+    return head, args
+
+
+def _atoms_equal(x, y, depth: int) -> bool:
+    ax, ay = _atom_args(x), _atom_args(y)
+    if ax is None or ay is None or ax[0] != ay[0] or len(ax[1]) != len(ay[1]):
+        return False
+    pairings = [list(range(len(ax[1])))]
+    if x[0] in ("max", "min") and len(ax[1]) == 2:
+        pairings.append([1, 0])
+    for perm in pairings:
+        if all(_same(ax[1][i], ay[1][perm[i]], depth + 1) is True for i in range(len(perm))):
+            return True
+    return False
+
+
+def _replace_atom(p: Poly, old, new) -> Poly:
+    out: Poly = {}
+    for mono, c in p.items():
+        m2 = tuple(sorted(((_map_atom(at, old, new), e) for at, e in mono), key=repr))
+        out = p_add(out, {m2: c})
+    return out
+
+
+def _same(a: Optional[Poly], b: Optional[Poly], depth: int = 0) -> Optional[bool]:
     if a is None or b is None:
         return None
     if a == b:
         return True
+    z = is_zero(p_add(a, b, -1))
+    if z is not False or depth > 3:
+        return z
+    # the arguments of max / min / abs / function atoms are compared as rational functions, not as written: an atom of b whose
+    # arguments equal those of an atom of a is the same value
+    only_a = [x for x in _atoms_of(a) if x not in _atoms_of(b)]
+    only_b = [y for y in _atoms_of(b) if y not in _atoms_of(a)]
+    changed = False
+    for y in only_b:
+        for x in only_a:
+            if _atoms_equal(x, y, depth):
+                b = _replace_atom(b, y, x)
+                changed = True
+                break
+    if not changed:
+        return False
     return is_zero(p_add(a, b, -1))
+
+
+def same(a: Optional[Poly], b: Optional[Poly]) -> Optional[bool]:
+    """a == b as rational functions of the atoms (atoms with arguments compared by their arguments' values)."""
+    return _same(a, b, 0)
 
 
 def poly_of(v) -> Optional[Poly]:
